@@ -91,6 +91,16 @@ func (e *Engine) verifyFunc(key string) (vc *VC, err error) {
 		}
 		vc.fact(t)
 	}
+	if c.Decreases != nil {
+		t, err := fr.evalClauseInt(c.Decreases, &evalCtx{fr: fr, st: fr.st, old: fr.entry, names: names})
+		if err != nil {
+			fr.stale("decreases", err)
+		} else {
+			v := vc.fresh("variant0", sInt)
+			vc.fact(eq(v, t))
+			fr.variant0 = v
+		}
+	}
 	fr.seedAll()
 	e.assumeEntryInvariants(fr, names)
 	vc.covers = append(vc.covers, &Obl{Name: "requires/cover", Kind: "cover", Guard: "true", Formula: "true", NFacts: len(vc.facts), Func: key, Pos: e.fset.Position(fn.Pos())})
@@ -288,6 +298,10 @@ func (fr *Frame) evalModifies(cl *Clause, ctx *evalCtx) (locs []*Loc, err error)
 			_ = fv
 			locs = append(locs, cur)
 		case e.Kind == "ident":
+			if ts, ok := fr.eng.cf.GhostVars[e.Name]; ok {
+				locs = append(locs, &Loc{kind: locGlobal, root: "G$ghost$" + e.Name, typ: fr.eng.parseType(ts)})
+				return
+			}
 			if obj := fr.eng.tpkg.Scope().Lookup(e.Name); obj != nil {
 				if v, ok := obj.(*types.Var); ok {
 					locs = append(locs, &Loc{kind: locGlobal, root: "G$" + e.Name, typ: v.Type()})
